@@ -329,6 +329,9 @@ func (f *vMFile) Close() error {
 	f.inAtClose += f.inCall
 	f.closed++
 	f.unlock()
+	if vCloseMayFail && vAns(2) == 1 {
+		return syscall.EIO
+	}
 	return nil
 }
 
